@@ -8,6 +8,7 @@ import (
 	"fmt"
 	"os"
 	"strconv"
+	"strings"
 	"testing"
 	"testing/synctest"
 
@@ -102,4 +103,16 @@ func must(err error) {
 	if err != nil {
 		panic(fmt.Sprintf("vt: %v", err))
 	}
+}
+
+// Known reports whether finding id is listed as open in /verif/known_findings.json (the driver
+// passes the open ids in VERIF_KNOWN). Generators exclude open findings by construction and count
+// what they excluded; a deterministic replay of each prints the KNOWN-FINDING line.
+func Known(id string) bool {
+	for _, k := range strings.Split(os.Getenv("VERIF_KNOWN"), ",") {
+		if k == id {
+			return true
+		}
+	}
+	return false
 }
